@@ -629,3 +629,227 @@ func nilPathFeasible(fn *ssa.Function, v ssa.Value, alsoNil []ssa.Value, at ssa.
 	}
 	return false
 }
+
+// ---------- structural equality of SSA expressions (go/ssa has no CSE) ----------
+
+// structEq: a and b are the same value, or pure expressions of the same shape over the same leaves
+// (parameters, constants, loads of the same access path, len/cap of equal operands, conversions, arithmetic).
+func structEq(a, b ssa.Value, d int) bool {
+	if a == b {
+		return true
+	}
+	if d > 6 || a == nil || b == nil {
+		return false
+	}
+	switch x := a.(type) {
+	case *ssa.Const:
+		y, ok := b.(*ssa.Const)
+		return ok && x.Value != nil && y.Value != nil && constant.Compare(x.Value, token.EQL, y.Value)
+	case *ssa.Convert:
+		y, ok := b.(*ssa.Convert)
+		return ok && types.Identical(x.Type(), y.Type()) && structEq(x.X, y.X, d+1)
+	case *ssa.ChangeType:
+		y, ok := b.(*ssa.ChangeType)
+		return ok && structEq(x.X, y.X, d+1)
+	case *ssa.BinOp:
+		y, ok := b.(*ssa.BinOp)
+		if !ok || x.Op != y.Op {
+			return false
+		}
+		if structEq(x.X, y.X, d+1) && structEq(x.Y, y.Y, d+1) {
+			return true
+		}
+		if x.Op == token.ADD || x.Op == token.MUL {
+			return structEq(x.X, y.Y, d+1) && structEq(x.Y, y.X, d+1)
+		}
+		return false
+	case *ssa.UnOp:
+		y, ok := b.(*ssa.UnOp)
+		if !ok || x.Op != y.Op {
+			return false
+		}
+		if x.Op == token.MUL { // load: same access path, in the same function
+			pa, pb := apath(x.X), apath(y.X)
+			return pa == pb && !strings.Contains(pa, "·")
+		}
+		return structEq(x.X, y.X, d+1)
+	case *ssa.Call:
+		y, ok := b.(*ssa.Call)
+		if !ok {
+			return false
+		}
+		bx, ok1 := x.Call.Value.(*ssa.Builtin)
+		by, ok2 := y.Call.Value.(*ssa.Builtin)
+		if ok1 && ok2 && bx.Name() == by.Name() && (bx.Name() == "len" || bx.Name() == "cap") {
+			return structEq(x.Call.Args[0], y.Call.Args[0], d+1)
+		}
+		return false
+	case *ssa.FieldAddr, *ssa.IndexAddr, *ssa.Field:
+		pa, pb := apath(a), apath(b)
+		return pa == pb && !strings.Contains(pa, "·")
+	}
+	return false
+}
+
+// ---------- facts implied by a boolean SSA value ----------
+
+// boolFacts: atomic facts that must hold when v evaluates to `want`.
+// Facts: "p=true"/"p=false" for a bool parameter p, "lenzero(<path>)" / "lenpos(<path>)" for len comparisons with 0/1.
+// Phis of short-circuit operators are followed: an incoming edge contributes the facts of its value plus the facts of
+// the branch that selects the edge; edges whose value is the opposite constant are impossible.
+func boolFacts(v ssa.Value, want bool, d int) map[string]bool {
+	out := map[string]bool{}
+	if d > 6 {
+		return out
+	}
+	switch x := v.(type) {
+	case *ssa.Parameter:
+		out[x.Name()+"="+fmt.Sprint(want)] = true
+	case *ssa.UnOp:
+		if x.Op == token.NOT {
+			return boolFacts(x.X, !want, d+1)
+		}
+		if x.Op == token.MUL {
+			// load of a spilled bool parameter
+			if al, ok := x.X.(*ssa.Alloc); ok {
+				if pr := spilledParam(al); pr != nil {
+					out[pr.Name()+"="+fmt.Sprint(want)] = true
+				}
+			}
+		}
+	case *ssa.BinOp:
+		// len(X) REL c
+		for _, side := range []int{0, 1} {
+			l, c := x.X, x.Y
+			op := x.Op
+			if side == 1 {
+				l, c = x.Y, x.X
+				op = flipOp(op)
+			}
+			call := callOf(l)
+			if call == nil {
+				continue
+			}
+			bi, ok := call.Call.Value.(*ssa.Builtin)
+			if !ok || bi.Name() != "len" {
+				continue
+			}
+			k, ok := constInt64(c)
+			if !ok {
+				continue
+			}
+			pth := apath(call.Call.Args[0])
+			if !want {
+				op = negOp(op)
+			}
+			switch {
+			case op == token.EQL && k == 0, op == token.LEQ && k == 0, op == token.LSS && k == 1:
+				out["lenzero("+pth+")"] = true
+			case op == token.NEQ && k == 0, op == token.GTR && k == 0, op == token.GEQ && k == 1:
+				out["lenpos("+pth+")"] = true
+			}
+		}
+	case *ssa.Phi:
+		first := true
+		for i, e := range x.Edges {
+			if cb, isC := constBool(e); isC && cb != want {
+				continue // this edge cannot produce `want`
+			}
+			f := map[string]bool{}
+			if _, isC := constBool(e); !isC {
+				f = boolFacts(e, want, d+1)
+			}
+			for k := range edgeChainFacts(x.Block().Preds[i], x.Block(), d+1) {
+				f[k] = true
+			}
+			if first {
+				out, first = f, false
+			} else {
+				for k := range out {
+					if !f[k] {
+						delete(out, k)
+					}
+				}
+			}
+		}
+	}
+	return out
+}
+
+// edgeChainFacts: facts known on the edge from→to: the branch of `from` (if it ends in an If) and, walking up while
+// blocks have a single predecessor, the branches that lead to `from`.
+func edgeChainFacts(from, to *ssa.BasicBlock, d int) map[string]bool {
+	out := map[string]bool{}
+	for steps := 0; from != nil && steps < 8; steps++ {
+		if iff, ok := from.Instrs[len(from.Instrs)-1].(*ssa.If); ok && from.Succs[0] != from.Succs[1] {
+			for k := range boolFacts(iff.Cond, from.Succs[0] == to, d+1) {
+				out[k] = true
+			}
+		}
+		if len(from.Preds) != 1 {
+			break
+		}
+		from, to = from.Preds[0], from
+	}
+	return out
+}
+
+func spilledParam(al *ssa.Alloc) *ssa.Parameter {
+	var pr *ssa.Parameter
+	n := 0
+	for _, ref := range *al.Referrers() {
+		if st, ok := ref.(*ssa.Store); ok && st.Addr == al {
+			n++
+			pr, _ = st.Val.(*ssa.Parameter)
+		}
+	}
+	if n == 1 {
+		return pr
+	}
+	return nil
+}
+
+func flipOp(op token.Token) token.Token {
+	switch op {
+	case token.LSS:
+		return token.GTR
+	case token.GTR:
+		return token.LSS
+	case token.LEQ:
+		return token.GEQ
+	case token.GEQ:
+		return token.LEQ
+	}
+	return op
+}
+
+func negOp(op token.Token) token.Token {
+	switch op {
+	case token.LSS:
+		return token.GEQ
+	case token.GTR:
+		return token.LEQ
+	case token.LEQ:
+		return token.GTR
+	case token.GEQ:
+		return token.LSS
+	case token.EQL:
+		return token.NEQ
+	case token.NEQ:
+		return token.EQL
+	}
+	return op
+}
+
+// factBefore: the fact holds before ins on every path (established by branch edges).
+func factBefore(fn *ssa.Function, ins ssa.Instruction, fact string) bool {
+	mf := &MustFlow{Fn: fn, EdgeGen: func(b *ssa.BasicBlock, k int) bool {
+		iff, ok := b.Instrs[len(b.Instrs)-1].(*ssa.If)
+		if !ok {
+			return false
+		}
+		return boolFacts(iff.Cond, k == 0, 0)[fact]
+	}}
+	mf.Run()
+	return mf.Before(ins)
+}
